@@ -394,9 +394,25 @@ theorem msgs_sim {o : Opts} {A : List (Int × Int)} {L P S : List LBatch} {lb : 
 
 theorem wrapper_eq {m : Msg} {inner : Inner} {lb : LBatch} (o : Opts) (s : St) (hc : m.attrs % 4 ≠ 0) (h : RepWrapper m inner lb) :
     processOuter o s m inner = some (keepAll o false s
-      (inner.msgs.map fun i => msgToRecord { withCodec (m.attrs % 4) i with offset := i.offset + wrapBase m inner })) := by
-  have hvalid : ∀ i ∈ inner.msgs, validMsg (withCodec (m.attrs % 4) i) := fun i hi => (h.valid i hi).1
+      (inner.msgs.map fun i => msgToRecord { innerView m i with offset := i.offset + wrapBase m inner })) := by
   have hbase := h.baseNonneg
+  have hseen : ∀ base, ∀ i ∈ inner.msgs,
+      innerSeen base (m.attrs % 4) (if m.isV1 then (if m.attrs / 8 % 2 = 1 then some m.ts else none) else none) i
+        = { innerView m i with offset := i.offset + base } :=
+    fun base i hi => innerSeen_view m i base (fun hl => h.latV1 hl i hi)
+  have key : ∀ base, processInner o base (m.attrs % 4) (if m.isV1 then (if m.attrs / 8 % 2 = 1 then some m.ts else none) else none) s inner.msgs
+      = keepAll o false s (inner.msgs.map fun i => msgToRecord { innerView m i with offset := i.offset + base }) := by
+    intro base
+    rw [processInner_valid]
+    · congr 1
+      apply List.map_congr_left
+      intro i hi
+      rw [hseen base i hi]
+    · intro i hi
+      rw [hseen base i hi]
+      have := (h.valid i hi).1
+      unfold validMsg at this ⊢
+      exact this
   unfold processOuter
   simp only [hc, if_false, h.decomp, h.err, h.panic, setErr, Bool.not_true, Bool.false_eq_true]
   cases hl : inner.msgs.getLast? with
@@ -415,18 +431,18 @@ theorem wrapper_eq {m : Msg} {inner : Inner} {lb : LBatch} (o : Opts) (s : St) (
     rw [hl] at hbase ⊢
     simp only [Option.map_some, Option.getD_some] at hbase ⊢
     cases hv : m.isV1
-    · simp only [Bool.false_eq_true, if_false]
-      rw [processInner_valid o 0 _ _ s hvalid]
-    · simp only [hv, if_true] at hbase ⊢
+    · simp only [hv, Bool.false_eq_true, if_false] at key ⊢
+      rw [key 0]
+    · simp only [hv, if_true] at hbase key ⊢
       by_cases h0 : m.offset = 0
       · have hrel := h.relNonneg hv last hmem
         have : m.offset - last.offset = 0 := by omega
         simp only [h0, ne_eq, not_true_eq_false, if_false]
-        rw [processInner_valid o 0 _ _ s hvalid]
+        rw [key 0]
         rw [h0] at this; rw [this]
       · have hlt : ¬ m.offset < last.offset := by omega
         simp only [ne_eq, h0, not_false_eq_true, if_true, hlt, if_false]
-        rw [processInner_valid o _ _ _ s hvalid]
+        rw [key]
 
 /-! ## one step, the whole walk -/
 
@@ -477,7 +493,7 @@ theorem step_sim {o : Opts} {A : List (Int × Int)} {L P S : List LBatch} {lb : 
     · rw [if_neg hc] at hrep
       have hk := wrapper_eq o s hc hrep
       have hok : StepOk o A L P lb s (keepAll o false s
-          (inner.msgs.map fun i => msgToRecord { withCodec (m.attrs % 4) i with offset := i.offset + wrapBase m inner })) := by
+          (inner.msgs.map fun i => msgToRecord { innerView m i with offset := i.offset + wrapBase m inner })) := by
         refine msgs_sim _ s hL hwf hoff hab herr hst (by rw [hrep.present, hrep.records]; simp) ?_ ?_ ?_
         · rw [hrep.records, List.map_map, List.map_map]
           apply List.map_congr_left
@@ -485,8 +501,11 @@ theorem step_sim {o : Opts} {A : List (Int × Int)} {L P S : List LBatch} {lb : 
           simp only [Function.comp]
           have hv := hrep.valid i hi
           have ha := msg_attrs hv.1
-          exact obs_msg (lb := lb) i (wrapBase m inner) (i.attrs ||| m.attrs % 4)
+          have := obs_msg (lb := lb) (innerView m i) (wrapBase m inner) (innerView m i).attrs
             (by rw [← hv.2, ← ha.1]; rfl) hrep.pid hrep.pepoch hrep.lepoch
+          have hoffs : (innerView m i).offset = i.offset := by unfold innerView; split <;> rfl
+          rw [hoffs] at this
+          exact this
         · intro hne
           rw [hrep.records] at hne
           cases hm : inner.msgs with
@@ -501,8 +520,8 @@ theorem step_sim {o : Opts} {A : List (Int × Int)} {L P S : List LBatch} {lb : 
           obtain ⟨i, hi, rfl⟩ := List.mem_map.mp hr
           have hv := hrep.valid i hi
           have ha := msg_attrs hv.1
-          have : (msgToRecord { withCodec (m.attrs % 4) i with offset := i.offset + wrapBase m inner }).attrs
-              = (msgToRecord (withCodec (m.attrs % 4) i)).attrs := by simp [msgToRecord]
+          have : (msgToRecord { innerView m i with offset := i.offset + wrapBase m inner }).attrs
+              = (msgToRecord (innerView m i)).attrs := by simp [msgToRecord]
           rw [this, ha.1]; exact ha.2.1
       refine ⟨_, ?_, hok⟩
       simp only [stepItem, hk, Option.map_some]
